@@ -81,8 +81,30 @@ func hasLetterConst(v ssa.Value) bool {
 // caseUses: what the letter case of parameter k of f reaches. evidence = case-sensitive sinks,
 // unknown = uses that are not followed.
 func caseUses(w *World, f *ssa.Function, k int) (evidence, unknown []string) {
+	// stores of raw text into cells, found in the previous round; a load of a cell that a normalised store
+	// dominates is raw again only if one of THESE can come in between
+	rawStores := map[*ssa.Store]bool{}
+	for round := 0; round < 5; round++ {
+		ev, un, found := caseUsesOnce(w, f, k, rawStores)
+		grew := false
+		for st := range found {
+			if !rawStores[st] {
+				rawStores[st] = true
+				grew = true
+			}
+		}
+		evidence, unknown = ev, un
+		if !grew {
+			break
+		}
+	}
+	return
+}
+
+func caseUsesOnce(w *World, f *ssa.Function, k int, rawStores map[*ssa.Store]bool) (evidence, unknown []string, rawFound map[*ssa.Store]bool) {
+	rawFound = map[*ssa.Store]bool{}
 	if k >= len(f.Params) {
-		return nil, []string{"no such parameter"}
+		return nil, []string{"no such parameter"}, rawFound
 	}
 	ev, un := map[string]bool{}, map[string]bool{}
 	raw := map[ssa.Value]bool{}
@@ -120,6 +142,11 @@ func caseUses(w *World, f *ssa.Function, k int) (evidence, unknown []string) {
 				mark(x)
 			case *ssa.UnOp:
 				if x.Op.String() == "*" {
+					// a load of a cell: raw unless a store of a NORMALISED value into the same cell dominates it
+					// (sequence = strings.ToUpper(sequence) on a parameter that lives in a cell)
+					if a, isA := v.(*ssa.Alloc); isA && normalisedStoreDominates(a, x, rawStores) {
+						continue
+					}
 					mark(x)
 				}
 			case *ssa.Lookup:
@@ -157,6 +184,7 @@ func caseUses(w *World, f *ssa.Function, k int) (evidence, unknown []string) {
 					continue
 				}
 				if a, ok := x.Addr.(*ssa.Alloc); ok {
+					rawFound[x] = true
 					if !rawCells[a] {
 						rawCells[a] = true
 						mark(a) // loads of the cell, and element addresses of it, are raw
@@ -304,4 +332,42 @@ func judgeCase(w *World, f *ssa.Function, k int) (int, string) {
 		return unknown, "the text as typed is also used by " + strings.Join(un, "; ") + ", not followed"
 	}
 	return holds, ""
+}
+
+// normalisedStoreDominates: some store into cell a whose value is the result of a case normaliser
+// dominates the load ld, and no other store into a lies between them on every path (approximated: no
+// other store is dominated by that store and dominates the load).
+func normalisedStoreDominates(a *ssa.Alloc, ld *ssa.UnOp, rawStores map[*ssa.Store]bool) bool {
+	if a.Referrers() == nil {
+		return false
+	}
+	var stores []*ssa.Store
+	for _, r := range *a.Referrers() {
+		if st, ok := r.(*ssa.Store); ok && st.Addr == ssa.Value(a) {
+			stores = append(stores, st)
+		}
+	}
+	for _, st := range stores {
+		cl, ok := st.Val.(*ssa.Call)
+		if !ok || !caseNormalisers[calleeName(cl)] || !domInstr(st, ld) {
+			continue
+		}
+		later := false
+		for _, s2 := range stores {
+			if s2 == st {
+				continue
+			}
+			if !rawStores[s2] {
+				continue // not (yet) known to store raw text
+			}
+			// a store of raw text that may come after st and before the load
+			if !domInstr(s2, st) {
+				later = true
+			}
+		}
+		if !later {
+			return true
+		}
+	}
+	return false
 }
